@@ -242,13 +242,22 @@ func c18(c *core.Ctx) {
 				}
 				key := core.FuncName(fn) + ":reflect-set"
 				dest := set.Call.Args[0]
+				srcV := set.Call.Args[1]
 				gType := core.GuardedBy(set, func(f core.Fact) bool {
 					if f.Op != token.EQL {
 						return false
 					}
 					cx, _, okx := core.CallResult(f.X)
 					cy, _, oky := core.CallResult(f.Y)
-					return okx && oky && core.InfoOf(&cx.Call).Is("reflect.Value.Type") && core.InfoOf(&cy.Call).Is("reflect.Value.Type")
+					if !(okx && oky && core.InfoOf(&cx.Call).Is("reflect.Value.Type") && core.InfoOf(&cy.Call).Is("reflect.Value.Type")) {
+						return false
+					}
+					// ... of the very two values of the assignment: the destination and the value assigned (the test
+					// of some other value's type — e.g. of the input before it is cloned — says nothing about this one)
+					isDest := func(v ssa.Value) bool { return v == dest || sameOrigins(v, dest) }
+					isSrc := func(v ssa.Value) bool { return v == srcV || sameOrigins(v, srcV) }
+					a, b := cx.Call.Args[0], cy.Call.Args[0]
+					return (isDest(a) && isSrc(b)) || (isDest(b) && isSrc(a))
 				})
 				gSet := core.GuardedBy(set, func(f core.Fact) bool {
 					if f.Op != token.ILLEGAL || f.Neg {
